@@ -60,6 +60,7 @@ type Choices struct {
 	LowerHex    bool // block checksum in lower-case hex
 	PropCM      bool // message type CM instead of EM in proposals
 	Challenge   string // if master: send ;PQ: <challenge>
+	HoldTurns   int    // answer FF on the first n own turns although messages are queued (they "arrive" later)
 }
 
 var AcceptSpellings = []string{"+", "Y", "y", "!0", "A0", "a0", "!000000", "H", "h"}
@@ -104,6 +105,7 @@ type Peer struct {
 	FWSeen     string
 	HeldMIDs   map[string]bool // proposals the peer answered H (accepted, will be held): it expects the transfer
 	lastProp   map[string]prop
+	turns      int
 
 	rd *bufio.Reader
 	c  net.Conn
@@ -375,7 +377,13 @@ func asciiTitle(s string) string {
 
 // myTurn sends one block (or FF/FQ). Returns true if the session is over.
 func (p *Peer) myTurn(pending *[]outItem, remoteNoMsgs bool) bool {
-	if len(*pending) == 0 {
+	p.turns++
+	if len(*pending) == 0 || p.turns <= p.C.HoldTurns && !remoteNoMsgs {
+		if len(*pending) > 0 {
+			p.comment(3)
+			p.send("FF\r")
+			return false
+		}
 		p.comment(3)
 		if remoteNoMsgs {
 			p.send("FQ\r")
